@@ -56,6 +56,13 @@ def check_case(mode, layout, encs, exp, d):
     import mido
     path = os.path.join(d, 'f.syx')
     msgs = [mido.Message.from_bytes(e) for e in encs] if mode != 3 else []
+    if mode in (1, 2) and (len(encs) + layout) % 2 == 0:
+        # "other messages are dropped": also messages that are no sysex but carry a data
+        # attribute (a MIDI file track handed to write_syx_file holds such meta messages)
+        extra = [mido.MetaMessage('sequencer_specific', data=(0x41, 0x10)), mido.UnknownMetaMessage(0x60, data=(1, 2, 3)),
+                 mido.MetaMessage('text', text='F0 01 F7')]
+        for k, x in enumerate(extra):
+            msgs.insert(min(len(msgs), k * 2), x)
     if mode == 4:
         with open(path, 'w') as f:
             f.write(BAD[layout])
